@@ -156,6 +156,58 @@ def _rpair(c):
     return ev
 
 
+def _wpair(c):
+    """destination tiles tens of degrees wide (lon/lat) over a polar-projection source cut into small tiles along the destination's low-latitude edge:
+    that edge is a strongly curved arc in the source CRS.  Environment table (fresh pyproj, source -> destination): a source tile with three or more
+    pixel centres well inside a destination tile's lon/lat rectangle overlaps it beyond doubt."""
+    import numpy as np
+    import pyproj
+    from affine import Affine
+
+    from odc.geo.geobox import GeoBox, GeoboxTiles
+
+    sy, sx = c["st"]
+    dy, dx = c["dt"]
+    ev = {"op": "rpair", "c": c, "sy": sy, "sx": sx, "dy": dy, "dx": dx, "outcome": "ok", "deps": [], "need": [], "apart": False}
+    try:
+        s = c["pair"].split(">")[0]
+        south = s == "3031"
+        lat_edge = -50.0 if south else 50.0
+        fwd = pyproj.Transformer.from_crs(int(s), 4326, always_xy=True)
+        cx, cy = pyproj.Transformer.from_crs(4326, int(s), always_xy=True).transform(0.0 if south else -45.0 if s == "3413" else 10.0, lat_edge)
+        # the source: 2 km pixels, centred on the point where the destination's edge (lat +-50) crosses its middle meridian
+        px = 2000.0
+        h, w = sum(sy), sum(sx)
+        src = GeoBox((h, w), Affine(px, 0, round(cx) - w * px / 2, 0, -px, round(cy) + h * px / 2), f"epsg:{s}")
+        lon0 = fwd.transform(cx, cy)[0]
+        # the destination: one row of lon/lat tiles 30 / 60 / 30 degrees wide, 8 degrees tall, 1 degree pixels, its low-latitude edge at +-50
+        top = lat_edge if not south else lat_edge
+        dst = GeoBox((sum(dy), sum(dx)), Affine(1.0, 0, lon0 - sum(dx) / 2, 0, -1.0, (lat_edge + sum(dy)) if not south else lat_edge), "epsg:4326")
+        gs, gd = GeoboxTiles(src, (tuple(sy), tuple(sx))), GeoboxTiles(dst, (tuple(dy), tuple(dx)))
+        deps = gd.grid_intersect(gs)
+        ev["deps"] = [{"d": [idx(kk[0]), idx(kk[1])], "s": [[idx(a), idx(bb)] for a, bb in v]} for kk, v in sorted(deps.items())]
+        qq, rr = np.meshgrid(np.arange(w) + 0.5, np.arange(h) + 0.5)
+        A = src.affine
+        lo, la = fwd.transform(A.a * qq + A.c, A.e * rr + A.f)
+        B = ~dst.affine
+        dpx, dpy = B.a * lo + B.c, B.e * la + B.f                     # destination pixel coordinates of every source pixel centre
+        ey, ex = np.cumsum([0] + list(sy)), np.cumsum([0] + list(sx))
+        dey, dex = np.cumsum([0] + list(dy)), np.cumsum([0] + list(dx))
+        m = 0.05                                                      # margin: 1/20 destination pixel (~ 3 source pixels)
+        need = []
+        for i in range(len(dy)):
+            for j in range(len(dx)):
+                inside = (dpx > dex[j] + m) & (dpx < dex[j + 1] - m) & (dpy > dey[i] + m) & (dpy < dey[i + 1] - m)
+                for a in range(len(sy)):
+                    for bb in range(len(sx)):
+                        if int(inside[ey[a]:ey[a + 1], ex[bb]:ex[bb + 1]].sum()) >= 3:
+                            need.append([i, j, a, bb])
+        ev["need"] = need
+    except Exception as ex:  # noqa: BLE001
+        ev["outcome"] = type(ex).__name__
+    return ev
+
+
 RGRID = {"3575": (-3000000.0, -4000000.0, 1000000.0, -500000.0), "3035": (3000000.0, 2000000.0, 5000000.0, 4000000.0), "32633": (400000.0, 5500000.0, 1000000.0, 6100000.0)}
 RQ_CENTRE = {"3575": (10.0, 0.0), "3035": (0.0, 0.0), "32633": (4.0, 2.0)}      # offsets (degrees) that put the family of centres over each grid
 
@@ -219,6 +271,8 @@ def _rquery(c):
 def execute(c):
     if c["op"] == "rquery":
         return _rquery(c)
+    if c["op"] == "rpair" and c["zoom"] == "wide":
+        return _wpair(c)
     return _query(c) if c["op"] == "query" else (_rpair(c) if c["op"] == "rpair" else _pair(c))
 
 
@@ -237,8 +291,8 @@ def run(ctx):
     same = [c for c in ps if ident(c)]                                   # one grid tiled twice: all kept
     ps = [c for c in ps if not ident(c)]
     same += [c for c in cases if c["op"] == "rquery"]
-    rs = [c for c in cases if c["op"] == "rpair" and c["zoom"] != "global"]
-    same += [c for c in cases if c["op"] == "rpair" and c["zoom"] == "global"]        # sources wrapping the globe: all kept
+    rs = [c for c in cases if c["op"] == "rpair" and c["zoom"] not in ("global", "wide")]
+    same += [c for c in cases if c["op"] == "rpair" and c["zoom"] in ("global", "wide")]        # sources wrapping the globe: all kept
     cases = ctx.subsample(qs, 6000 if q else 10 ** 6) + ctx.subsample(ps, 2500 if q else 10 ** 6) + same + ctx.subsample(rs, 400 if q else 10 ** 6)
     events = ctx.pmap(execute, cases)
     verdicts = _validate(ctx, events)
